@@ -304,9 +304,14 @@ def extra_obligations(mods, tier, seed):
             cpp_t = (proj / "src" / "main.cpp").read_text(encoding="utf-8")
             inc = set(re.findall(r"^#include <(Servo|LiquidCrystal|LiquidCrystal_I2C)\.h>", cpp_t, re.M))
             cp = configparser.RawConfigParser()
-            cp.read(proj / "platformio.ini", encoding="utf-8")
-            sec = cp.sections()[0]
-            ini_libs = {x.strip() for x in cp.get(sec, "lib_deps", fallback="").splitlines() if x.strip()}
+            try:
+                cp.read(proj / "platformio.ini", encoding="utf-8")
+                sec = cp.sections()[0]
+                ini_libs = {x.strip() for x in cp.get(sec, "lib_deps", fallback="").splitlines() if x.strip()}
+            except (configparser.Error, IndexError) as ex:
+                bad_t.append({"vector": {"servo_setup": ns, "servo_loop_top": nl, "lcd_parallel": npar, "lcd_i2c": ni2c, "order": order}, "included_by_main_cpp": sorted(inc),
+                              "problem": f"the written platformio.ini cannot be read the way PlatformIO reads it: {type(ex).__name__}: {str(ex)[-160:]}"})
+                continue
             if ini_libs != inc:
                 bad_t.append({"vector": {"servo_setup": ns, "servo_loop_top": nl, "lcd_parallel": npar, "lcd_i2c": ni2c, "order": order}, "included_by_main_cpp": sorted(inc), "lib_deps_in_platformio_ini": sorted(ini_libs)})
     finally:
